@@ -1,24 +1,52 @@
 import RawPanelVerif.Model.Net
-/-! Invariants of the timed read-loop LTS (`Net.step`): when a deadline is armed, and how far it can lie ahead. -/
+/-! Invariants of the timed read-loop LTS (`Net.step`): when a read deadline is armed, how far it can lie ahead, that
+it lies in the future (urgency), that the write deadline is never touched, and who sets the `exit` flag. -/
 namespace RawPanelVerif.Net
+
+theorem frameTimeout_pos : 0 < frameTimeout := by decide
+
+/-- the class of configurations the invariants are proved for: the loop top clears the read deadline, the payload
+read arms it, the header rest arms it (repaired) or does nothing (pinned); lines 88 / 117 are arbitrary -/
+structure Coded (cfg : Cfg) : Prop where
+  loopTop : cfg.loopTop = .clear .read
+  payload : cfg.payload = .arm .read frameTimeout
+  hdrRest : cfg.hdrRest = .arm .read frameTimeout ∨ cfg.hdrRest = .skip
+  afterPayload : cfg.afterPayload = .skip
+  zeroShortcut : cfg.zeroShortcut = false
+
+theorem coded_repaired : Coded repaired := ⟨rfl, rfl, Or.inl rfl, rfl, rfl⟩
+theorem coded_pinned : Coded pinned := ⟨rfl, rfl, Or.inr rfl, rfl, rfl⟩
+
+def Cfg.armsHeader (cfg : Cfg) : Bool :=
+  match cfg.hdrRest with
+  | .arm _ _ => true
+  | _ => false
 
 /-- in which read-loop states a read deadline is armed -/
 def armed (cfg : Cfg) : RState → Bool
   | .waitHdr [] => false
-  | .waitHdr (_ :: _) => cfg.armInHeader
+  | .waitHdr (_ :: _) => cfg.armsHeader
   | .waitPayload _ _ => true
   | .stopped _ => false
 
-structure Inv (cfg : Cfg) (s : CState) : Prop where
-  armedIff : s.dl.isSome = armed cfg s.r
-  bound : ∀ d, s.dl = some d → d ≤ s.last + frameTimeout
-  lastLe : s.last ≤ s.clock
-  startLe : s.fstart ≤ s.last
-  startBound : ∀ d, s.dl = some d → s.fstart + frameTimeout ≤ d
+/-! ### `stepByteT` is `stepByte` plus deadlines -/
 
-theorem inv_init (cfg : Cfg) (t0 : Nat) : Inv cfg (CState.init t0) :=
-  ⟨by simp [CState.init, RState.init, armed], by simp [CState.init], by simp [CState.init],
-   by simp [CState.init], by simp [CState.init]⟩
+theorem stepByteT_state (cfg : Cfg) (now : Nat) (r : RState) (b : UInt8) (dl : Deadlines) :
+    (stepByteT cfg now r b dl).1 = (stepByte r b).1 ∧ (stepByteT cfg now r b dl).2.2 = (stepByte r b).2 := by
+  cases r with
+  | waitHdr rg =>
+    simp only [stepByteT, stepByte]
+    split
+    · exact ⟨rfl, rfl⟩
+    · split
+      · split
+        · split <;> exact ⟨rfl, rfl⟩
+        · exact ⟨rfl, rfl⟩
+      · exact ⟨rfl, rfl⟩
+  | waitPayload need rg =>
+    simp only [stepByteT, stepByte]
+    split <;> exact ⟨rfl, rfl⟩
+  | stopped w => exact ⟨rfl, rfl⟩
 
 theorem stepByte_hdr_short (rg : Bytes) (b : UInt8) (h : (b :: rg).length < 4) :
     stepByte (.waitHdr rg) b = (.waitHdr (b :: rg), []) := by
@@ -48,108 +76,438 @@ theorem stepByte_pay_more (need : Nat) (rg : Bytes) (b : UInt8) (h : ¬ need ≤
     stepByte (.waitPayload need rg) b = (.waitPayload (need - 1) (b :: rg), []) := by
   simp only [stepByte, h, if_false]
 
-theorem inv_tstep (cfg : Cfg) (s : CState) (now : Nat) (b : UInt8) (h : Inv cfg s) (hn : s.clock ≤ now) :
+/-! the deadlines after one byte, case by case (configurations in `Coded`) -/
+
+/-- the read deadline the header-rest call leaves -/
+def hdrDl (cfg : Cfg) (now : Nat) (dl : Deadlines) : Deadlines := cfg.hdrRest.apply now dl
+
+theorem stepByteT_dl_first (cfg : Cfg) (now : Nat) (b : UInt8) (dl : Deadlines) :
+    (stepByteT cfg now (.waitHdr []) b dl).2.1 = cfg.hdrRest.apply now dl := by
+  simp [stepByteT]
+
+theorem stepByteT_dl_hdr_short (cfg : Cfg) (now : Nat) (x : UInt8) (rg : Bytes) (b : UInt8) (dl : Deadlines)
+    (h : (b :: x :: rg).length < 4) : (stepByteT cfg now (.waitHdr (x :: rg)) b dl).2.1 = dl := by
+  simp only [stepByteT, h, if_true]
+  simp
+
+theorem stepByteT_dl_hdr_zero (cfg : Cfg) (hc : Coded cfg) (now : Nat) (x : UInt8) (rg : Bytes) (b : UInt8)
+    (dl : Deadlines) (h : ¬ (b :: x :: rg).length < 4) (hl : le32 (b :: x :: rg).reverse < limit)
+    (h0 : le32 (b :: x :: rg).reverse = 0) :
+    (stepByteT cfg now (.waitHdr (x :: rg)) b dl).2.1 = { dl with rd := none } := by
+  have hl0 : 0 < limit := by rw [h0] at hl; exact hl
+  simp only [stepByteT, h, h0, hl0, if_true, if_false, hc.loopTop, hc.payload, hc.afterPayload, hc.zeroShortcut, DlOp.apply]
+  simp
+
+theorem stepByteT_dl_hdr_pay (cfg : Cfg) (hc : Coded cfg) (now : Nat) (x : UInt8) (rg : Bytes) (b : UInt8)
+    (dl : Deadlines) (h : ¬ (b :: x :: rg).length < 4) (hl : le32 (b :: x :: rg).reverse < limit)
+    (h0 : ¬ le32 (b :: x :: rg).reverse = 0) :
+    (stepByteT cfg now (.waitHdr (x :: rg)) b dl).2.1 = { dl with rd := some (now + frameTimeout) } := by
+  simp only [stepByteT, h, h0, hl, if_true, if_false, hc.payload, DlOp.apply]
+  simp
+
+theorem stepByteT_dl_hdr_over (cfg : Cfg) (now : Nat) (x : UInt8) (rg : Bytes) (b : UInt8)
+    (dl : Deadlines) (h : ¬ (b :: x :: rg).length < 4) (hl : ¬ le32 (b :: x :: rg).reverse < limit) :
+    (stepByteT cfg now (.waitHdr (x :: rg)) b dl).2.1 = dl := by
+  simp only [stepByteT, h, hl, if_false]
+  simp
+
+theorem stepByteT_dl_pay_last (cfg : Cfg) (hc : Coded cfg) (now need : Nat) (rg : Bytes) (b : UInt8) (dl : Deadlines)
+    (h : need ≤ 1) : (stepByteT cfg now (.waitPayload need rg) b dl).2.1 = { dl with rd := none } := by
+  simp only [stepByteT, h, if_true, hc.loopTop, hc.afterPayload, DlOp.apply]
+
+theorem stepByteT_dl_pay_more (cfg : Cfg) (now need : Nat) (rg : Bytes) (b : UInt8) (dl : Deadlines)
+    (h : ¬ need ≤ 1) : (stepByteT cfg now (.waitPayload need rg) b dl).2.1 = dl := by
+  simp only [stepByteT, h, if_false]
+
+/-- what the header-rest call does to the read deadline, in terms of `armsHeader` -/
+theorem hdrRest_rd (cfg : Cfg) (hc : Coded cfg) (now : Nat) (dl : Deadlines) :
+    (cfg.hdrRest.apply now dl).rd = if cfg.armsHeader then some (now + frameTimeout) else dl.rd := by
+  rcases hc.hdrRest with h | h <;> simp [Cfg.armsHeader, h, DlOp.apply]
+
+/-! ### the invariant -/
+
+structure Inv (cfg : Cfg) (s : CState) : Prop where
+  armedIff : s.entered = true → s.r.live = true → s.dl.rd.isSome = armed cfg s.r
+  bound : s.entered = true → s.r.live = true → ∀ d, s.dl.rd = some d → d ≤ s.last + frameTimeout
+  lastLe : s.last ≤ s.clock
+  startLe : s.fstart ≤ s.last
+  startBound : s.entered = true → s.r.live = true → ∀ d, s.dl.rd = some d → s.fstart + frameTimeout ≤ d
+  future : s.entered = true → s.r.live = true → ∀ d, s.dl.rd = some d → s.clock < d
+
+theorem inv_probed (cfg : Cfg) (tp : Nat) : Inv cfg (CState.probed cfg tp) :=
+  ⟨by simp [CState.probed], by simp [CState.probed], by simp [CState.probed], by simp [CState.probed],
+   by simp [CState.probed], by simp [CState.probed]⟩
+
+theorem enterLoop_rd (cfg : Cfg) (hc : Coded cfg) (now : Nat) (s : CState) : (enterLoop cfg now s).dl.rd = none := by
+  simp [enterLoop, applyOps, hc.loopTop, DlOp.apply]
+
+theorem inv_enter (cfg : Cfg) (hc : Coded cfg) (now : Nat) (s : CState) (he : s.entered = false) (hr : s.r = .waitHdr []) :
+    Inv cfg (enterLoop cfg now s) := by
+  have hrd := enterLoop_rd cfg hc now s
+  refine ⟨?_, ?_, ?_, ?_, ?_, ?_⟩
+  · intro _ _; rw [hrd]; simp [enterLoop, hr, armed]
+  · intro _ _ d hd; rw [hrd] at hd; cases hd
+  · simp [enterLoop]
+  · simp [enterLoop]
+  · intro _ _ d hd; rw [hrd] at hd; cases hd
+  · intro _ _ d hd; rw [hrd] at hd; cases hd
+
+/-- states before the loop is entered are at a header boundary -/
+def PreOk (s : CState) : Prop := s.entered = false → s.r = .waitHdr []
+
+theorem tstep_live (cfg : Cfg) (now : Nat) (s : CState) (b : UInt8) (hl : s.r.live = true) :
+    tstep cfg now s b =
+      ({ s with r := (stepByte s.r b).1, dl := (stepByteT cfg now s.r b s.dl).2.1, last := now, clock := now,
+                fstart := if s.r = .waitHdr [] then now else s.fstart }, (stepByte s.r b).2) := by
+  have h := stepByteT_state cfg now s.r b s.dl
+  simp only [tstep, hl, if_true, h.1, h.2]
+
+theorem tstep_dead (cfg : Cfg) (now : Nat) (s : CState) (b : UInt8) (hl : s.r.live = false) :
+    tstep cfg now s b = ({ s with clock := now }, []) := by
+  simp [tstep, hl]
+
+theorem inv_tstep (cfg : Cfg) (hc : Coded cfg) (s : CState) (now : Nat) (b : UInt8) (h : Inv cfg s)
+    (he : s.entered = true) (hn : s.clock ≤ now) (hx : s.r.live = true → notExpired s now = true) :
     Inv cfg (tstep cfg now s b).1 := by
-  obtain ⟨h1, h2, h3, h4s, h5⟩ := h
-  obtain ⟨r, dl, last, clock, fstart⟩ := s
-  simp only at h1 h2 h3 h4s h5 hn
-  have hT : ∀ d, dl = some d → d ≤ now + frameTimeout := fun d hd => by have := h2 d hd; omega
-  have hF : (if r = RState.waitHdr [] then now else fstart) ≤ now := by split <;> omega
-  cases r with
-  | waitHdr rg =>
-    by_cases h4 : (b :: rg).length < 4
-    · simp only [tstep, stepByte_hdr_short rg b h4]
+  by_cases hlive : s.r.live = true
+  · have k1 := h.armedIff he hlive
+    have k2 := h.bound he hlive
+    have k3 := h.lastLe
+    have k4 := h.startLe
+    have k5 := h.startBound he hlive
+    have hT := frameTimeout_pos
+    have hX : ∀ d, s.dl.rd = some d → now < d := by
+      intro d hd
+      have := hx hlive
+      simp [notExpired, hd] at this; exact this
+    clear h hx
+    rw [tstep_live cfg now s b hlive]
+    obtain ⟨r, dl, entered, last, clock, fstart, exit, reported⟩ := s
+    simp only at k1 k2 k3 k4 k5 hn he hlive hX ⊢
+    cases r with
+    | waitHdr rg =>
       cases rg with
       | nil =>
-        refine ⟨?_, ?_, ?_, ?_, ?_⟩ <;> simp [nextDl, armed] <;> (cases cfg.armInHeader <;> simp)
+        have h4 : (b :: ([] : Bytes)).length < 4 := by simp
+        rw [stepByte_hdr_short [] b h4, stepByteT_dl_first]
+        have hrd := hdrRest_rd cfg hc now dl
+        have hnone : dl.rd = none := by simpa [armed] using k1
+        refine ⟨?_, ?_, ?_, ?_, ?_, ?_⟩
+        · intro _ _; simp only [hrd, armed]; cases cfg.armsHeader <;> simp [hnone]
+        · intro _ _ d hd; simp only [hrd, hnone] at hd ⊢
+          cases ha : cfg.armsHeader <;> rw [ha] at hd <;> simp at hd
+          omega
+        · simp
+        · simp
+        · intro _ _ d hd; simp only [hrd, hnone, if_true] at hd ⊢
+          cases ha : cfg.armsHeader <;> rw [ha] at hd <;> simp at hd
+          omega
+        · intro _ _ d hd; simp only [hrd, hnone] at hd ⊢
+          cases ha : cfg.armsHeader <;> rw [ha] at hd <;> simp at hd
+          omega
       | cons x rg =>
-        simp only [armed] at h1
-        exact ⟨by simp [nextDl, armed, h1], by simpa [nextDl] using hT, by simp, by simp; omega,
-               by simpa [nextDl] using h5⟩
-    · by_cases hl : le32 (b :: rg).reverse < limit
-      · by_cases h0 : le32 (b :: rg).reverse = 0
-        · simp only [tstep, stepByte_hdr_zero rg b h4 hl h0]
-          refine ⟨?_, ?_, ?_, hF, ?_⟩ <;> simp [nextDl, armed]
-        · simp only [tstep, stepByte_hdr_pay rg b h4 hl h0]
-          refine ⟨?_, ?_, ?_, hF, ?_⟩ <;> simp [nextDl, armed]
-          split <;> omega
-      · simp only [tstep, stepByte_hdr_over rg b h4 hl]
-        refine ⟨?_, ?_, ?_, hF, ?_⟩ <;> simp [nextDl, armed]
-  | waitPayload need rg =>
-    simp only [armed] at h1
-    by_cases hn1 : need ≤ 1
-    · simp only [tstep, stepByte_pay_last need rg b hn1]
-      refine ⟨?_, ?_, ?_, hF, ?_⟩ <;> simp [nextDl, armed]
-    · simp only [tstep, stepByte_pay_more need rg b hn1]
-      exact ⟨by simp [nextDl, armed, h1], by simpa [nextDl] using hT, by simp, by simp; omega,
-             by simpa [nextDl] using h5⟩
-  | stopped w =>
-    simp only [armed] at h1
-    refine ⟨?_, ?_, ?_, hF, ?_⟩ <;> simp [tstep, stepByte, nextDl, armed]
+        simp only [armed] at k1
+        have hne : ¬ (RState.waitHdr (x :: rg) = RState.waitHdr []) := by simp
+        by_cases h4 : (b :: x :: rg).length < 4
+        · rw [stepByte_hdr_short _ b h4, stepByteT_dl_hdr_short cfg now x rg b dl h4]
+          refine ⟨?_, ?_, ?_, ?_, ?_, ?_⟩
+          · intro _ _; simpa [armed] using k1
+          · intro _ _ d hd; have := k2 d hd; simp only; omega
+          · simp
+          · simp only [hne, if_false]; omega
+          · intro _ _ d hd; simp only [hne, if_false]; exact k5 d hd
+          · intro _ _ d hd; exact hX d hd
+        · by_cases hl : le32 (b :: x :: rg).reverse < limit
+          · by_cases h0 : le32 (b :: x :: rg).reverse = 0
+            · rw [stepByte_hdr_zero _ b h4 hl h0, stepByteT_dl_hdr_zero cfg hc now x rg b dl h4 hl h0]
+              refine ⟨?_, ?_, ?_, ?_, ?_, ?_⟩ <;> simp [armed, hne]
+              omega
+            · rw [stepByte_hdr_pay _ b h4 hl h0, stepByteT_dl_hdr_pay cfg hc now x rg b dl h4 hl h0]
+              refine ⟨?_, ?_, ?_, ?_, ?_, ?_⟩ <;> simp [armed, hne]
+              all_goals (first | omega | (intros; omega))
+          · rw [stepByte_hdr_over _ b h4 hl]
+            refine ⟨?_, ?_, ?_, ?_, ?_, ?_⟩ <;> simp [RState.live, hne]
+            omega
+    | waitPayload need rg =>
+      simp only [armed] at k1
+      have hne : ¬ (RState.waitPayload need rg = RState.waitHdr []) := by simp
+      by_cases hn1 : need ≤ 1
+      · rw [stepByte_pay_last need rg b hn1, stepByteT_dl_pay_last cfg hc now need rg b dl hn1]
+        refine ⟨?_, ?_, ?_, ?_, ?_, ?_⟩ <;> simp [armed, hne]
+        omega
+      · rw [stepByte_pay_more need rg b hn1, stepByteT_dl_pay_more cfg now need rg b dl hn1]
+        refine ⟨?_, ?_, ?_, ?_, ?_, ?_⟩
+        · intro _ _; simpa [armed] using k1
+        · intro _ _ d hd; have := k2 d hd; simp only; omega
+        · simp
+        · simp only [hne, if_false]; omega
+        · intro _ _ d hd; simp only [hne, if_false]; exact k5 d hd
+        · intro _ _ d hd; exact hX d hd
+    | stopped w => simp [RState.live] at hlive
+  · have hd : s.r.live = false := by cases hh : s.r.live <;> simp_all
+    rw [tstep_dead cfg now s b hd]
+    refine ⟨?_, ?_, ?_, ?_, ?_, ?_⟩
+    · intro _ hl; simp only at hl; rw [hd] at hl; cases hl
+    · intro _ hl; simp only at hl; rw [hd] at hl; cases hl
+    · exact Nat.le_trans h.lastLe hn
+    · exact h.startLe
+    · intro _ hl; simp only at hl; rw [hd] at hl; cases hl
+    · intro _ hl; simp only at hl; rw [hd] at hl; cases hl
 
-theorem inv_step (cfg : Cfg) (s s' : CState) (l : Lbl) (e : List Eff) (h : Inv cfg s)
-    (hs : step cfg s l = some (s', e)) : Inv cfg s' := by
-  cases l with
-  | arrive now b =>
-    simp only [step] at hs
-    by_cases hc : s.clock ≤ now
-    · simp only [hc, if_true] at hs
-      by_cases hl : s.r.live = true
-      · simp only [hl, if_true, Option.some.injEq] at hs
-        have := inv_tstep cfg s now b h hc
-        rw [hs] at this; exact this
-      · simp only [hl] at hs
-        simp only [Bool.false_eq_true, if_false, Option.some.injEq, Prod.mk.injEq] at hs
-        obtain ⟨hs, _⟩ := hs
-        subst hs
-        exact ⟨h.armedIff, h.bound, Nat.le_trans h.lastLe hc, h.startLe, h.startBound⟩
-    · simp [hc] at hs
-  | expire now =>
-    simp only [step] at hs
-    split at hs
-    · rename_i d hd
-      split at hs
-      · rename_i hg
-        simp only [Option.some.injEq, Prod.mk.injEq] at hs
-        obtain ⟨hs, _⟩ := hs
-        subst hs
-        exact ⟨by simp [armed], by simp, Nat.le_trans h.lastLe hg.1, h.startLe, by simp⟩
-      · simp at hs
-    · simp at hs
-  | peerClose now =>
-    simp only [step] at hs
-    split at hs
+/-! ### inversion lemmas, one per label -/
+
+theorem step_enter {cfg : Cfg} {s s' : CState} {e : List Eff} {now : Nat} (h : step cfg s (.enter now) = some (s', e)) :
+    s.entered = false ∧ s.clock ≤ now ∧ s' = enterLoop cfg now s ∧ e = [] := by
+  simp only [step] at h
+  split at h
+  · rename_i hg
+    simp only [Option.some.injEq, Prod.mk.injEq] at h
+    exact ⟨hg.1, hg.2, h.1.symm, h.2.symm⟩
+  · cases h
+
+theorem step_arrive {cfg : Cfg} {s s' : CState} {e : List Eff} {now : Nat} {b : UInt8}
+    (h : step cfg s (.arrive now b) = some (s', e)) :
+    s.entered = true ∧ s.clock ≤ now ∧ (s.r.live = true → notExpired s now = true) ∧ (s', e) = tstep cfg now s b := by
+  simp only [step] at h
+  split at h
+  · rename_i hg
+    simp only [Option.some.injEq] at h
+    exact ⟨hg.1, hg.2.1, hg.2.2, h.symm⟩
+  · cases h
+
+theorem step_expire {cfg : Cfg} {s s' : CState} {e : List Eff} {now : Nat} (h : step cfg s (.expire now) = some (s', e)) :
+    ∃ d, s.dl.rd = some d ∧ s.entered = true ∧ s.clock ≤ now ∧ d ≤ now ∧ s.r.live = true ∧
+      s' = { s with r := .stopped .timeout, clock := now } ∧ e = [] := by
+  simp only [step] at h
+  split at h
+  · rename_i d hd
+    split at h
     · rename_i hg
-      simp only [Option.some.injEq, Prod.mk.injEq] at hs
-      obtain ⟨hs, _⟩ := hs
-      subst hs
-      exact ⟨by simp [armed], by simp, Nat.le_trans h.lastLe hg.1, h.startLe, by simp⟩
-    · simp at hs
+      simp only [Option.some.injEq, Prod.mk.injEq] at h
+      exact ⟨d, hd, hg.1, hg.2.1, hg.2.2.1, hg.2.2.2, h.1.symm, h.2.symm⟩
+    · cases h
+  · cases h
 
-theorem inv_runL (cfg : Cfg) (ls : List Lbl) : ∀ (s s' : CState) (e : List Eff), Inv cfg s →
-    runL cfg s ls = some (s', e) → Inv cfg s' := by
+theorem step_peerClose {cfg : Cfg} {s s' : CState} {e : List Eff} {now : Nat}
+    (h : step cfg s (.peerClose now) = some (s', e)) :
+    s.entered = true ∧ s.clock ≤ now ∧ s.r.live = true ∧ notExpired s now = true ∧
+      s' = { s with r := .stopped .peerClosed, clock := now } ∧ e = [] := by
+  simp only [step] at h
+  split at h
+  · rename_i hg
+    simp only [Option.some.injEq, Prod.mk.injEq] at h
+    exact ⟨hg.1, hg.2.1, hg.2.2.1, hg.2.2.2, h.1.symm, h.2.symm⟩
+  · cases h
+
+theorem step_cancel {cfg : Cfg} {s s' : CState} {e : List Eff} {now : Nat} (h : step cfg s (.cancel now) = some (s', e)) :
+    s.entered = true ∧ s.clock ≤ now ∧ (s.r.live = true → notExpired s now = true) ∧
+      s' = { s with exit := true, r := if s.r.live then .stopped .peerClosed else s.r, clock := now } ∧ e = [] := by
+  simp only [step] at h
+  split at h
+  · rename_i hg
+    simp only [Option.some.injEq, Prod.mk.injEq] at h
+    exact ⟨hg.1, hg.2.1, hg.2.2, h.1.symm, h.2.symm⟩
+  · cases h
+
+theorem step_teardown {cfg : Cfg} {s s' : CState} {e : List Eff} {now : Nat}
+    (h : step cfg s (.teardown now) = some (s', e)) :
+    s.entered = true ∧ s.clock ≤ now ∧ s.r.live = false ∧ s.reported = none ∧
+      s' = { s with reported := some s.exit, clock := now } ∧ e = [] := by
+  simp only [step] at h
+  split at h
+  · rename_i hg
+    simp only [Option.some.injEq, Prod.mk.injEq] at h
+    exact ⟨hg.1, hg.2.1, hg.2.2.1, hg.2.2.2, h.1.symm, h.2.symm⟩
+  · cases h
+
+theorem tstep_entered (cfg : Cfg) (now : Nat) (s : CState) (b : UInt8) : (tstep cfg now s b).1.entered = s.entered := by
+  simp only [tstep]; split <;> rfl
+
+theorem inv_step (cfg : Cfg) (hc : Coded cfg) (s s' : CState) (l : Lbl) (e : List Eff) (h : Inv cfg s ∧ PreOk s)
+    (hs : step cfg s l = some (s', e)) : Inv cfg s' ∧ PreOk s' := by
+  obtain ⟨h, hp⟩ := h
+  cases l with
+  | enter now =>
+    obtain ⟨he, _, rfl, _⟩ := step_enter hs
+    exact ⟨inv_enter cfg hc now s he (hp he), fun hh => by simp [enterLoop] at hh⟩
+  | arrive now b =>
+    obtain ⟨he, hcl, hx, heq⟩ := step_arrive hs
+    have hs' : s' = (tstep cfg now s b).1 := congrArg Prod.fst heq
+    subst hs'
+    refine ⟨inv_tstep cfg hc s now b h he hcl hx, fun hh => ?_⟩
+    rw [tstep_entered, he] at hh; cases hh
+  | expire now =>
+    obtain ⟨d, _, he, hcl, _, _, rfl, _⟩ := step_expire hs
+    refine ⟨⟨?_, ?_, Nat.le_trans h.lastLe hcl, h.startLe, ?_, ?_⟩, fun hh => ?_⟩
+    · intro _ hl; simp [RState.live] at hl
+    · intro _ hl; simp [RState.live] at hl
+    · intro _ hl; simp [RState.live] at hl
+    · intro _ hl; simp [RState.live] at hl
+    · simp only at hh; rw [he] at hh; cases hh
+  | peerClose now =>
+    obtain ⟨he, hcl, _, _, rfl, _⟩ := step_peerClose hs
+    refine ⟨⟨?_, ?_, Nat.le_trans h.lastLe hcl, h.startLe, ?_, ?_⟩, fun hh => ?_⟩
+    · intro _ hl; simp [RState.live] at hl
+    · intro _ hl; simp [RState.live] at hl
+    · intro _ hl; simp [RState.live] at hl
+    · intro _ hl; simp [RState.live] at hl
+    · simp only at hh; rw [he] at hh; cases hh
+  | cancel now =>
+    obtain ⟨he, hcl, _, rfl, _⟩ := step_cancel hs
+    have hdead : (if s.r.live = true then RState.stopped Stop.peerClosed else s.r).live = false := by
+      cases hl : s.r.live
+      · simp [hl]
+      · simp [RState.live]
+    refine ⟨⟨?_, ?_, Nat.le_trans h.lastLe hcl, h.startLe, ?_, ?_⟩, fun hh => ?_⟩
+    · intro _ hl; simp only at hl; rw [hdead] at hl; cases hl
+    · intro _ hl; simp only at hl; rw [hdead] at hl; cases hl
+    · intro _ hl; simp only at hl; rw [hdead] at hl; cases hl
+    · intro _ hl; simp only at hl; rw [hdead] at hl; cases hl
+    · simp only at hh; rw [he] at hh; cases hh
+  | teardown now =>
+    obtain ⟨he, hcl, hd, _, rfl, _⟩ := step_teardown hs
+    refine ⟨⟨?_, ?_, Nat.le_trans h.lastLe hcl, h.startLe, ?_, ?_⟩, fun hh => ?_⟩
+    · intro _ hl; simp only at hl; rw [hd] at hl; cases hl
+    · intro _ hl; simp only at hl; rw [hd] at hl; cases hl
+    · intro _ hl; simp only at hl; rw [hd] at hl; cases hl
+    · intro _ hl; simp only at hl; rw [hd] at hl; cases hl
+    · simp only at hh; rw [he] at hh; cases hh
+
+/-- generic induction principle for `runL`: a predicate preserved by every enabled step holds at the end -/
+theorem runL_induct (cfg : Cfg) (P : CState → Prop)
+    (hstep : ∀ s s' l e, P s → step cfg s l = some (s', e) → P s') :
+    ∀ (ls : List Lbl) (s s' : CState) (e : List Eff), P s → runL cfg s ls = some (s', e) → P s' := by
+  intro ls
   induction ls with
   | nil => intro s s' e h hr; simp [runL] at hr; rw [← hr.1]; exact h
   | cons l ls ih =>
     intro s s' e h hr
     simp only [runL] at hr
     split at hr
-    · simp at hr
+    · cases hr
     · rename_i r1 h1
       split at hr
-      · simp at hr
+      · cases hr
       · rename_i r2 h2
         simp only [Option.some.injEq, Prod.mk.injEq] at hr
-        have hi := inv_step cfg s r1.1 l r1.2 h (by simpa using h1)
+        have hi := hstep s r1.1 l r1.2 h (by simpa using h1)
         have := ih r1.1 r2.1 r2.2 hi (by simpa using h2)
         rw [← hr.1]; exact this
 
-/-- states reachable from a fresh connection by any sequence of arrivals, expiries and a close -/
-def Reachable (cfg : Cfg) (s : CState) : Prop :=
-  ∃ t0 ls e, runL cfg (CState.init t0) ls = some (s, e)
+theorem inv_runL (cfg : Cfg) (hc : Coded cfg) (ls : List Lbl) (s s' : CState) (e : List Eff) (h : Inv cfg s ∧ PreOk s)
+    (hr : runL cfg s ls = some (s', e)) : Inv cfg s' ∧ PreOk s' :=
+  runL_induct cfg (fun s => Inv cfg s ∧ PreOk s) (fun s s' l e hs hst => inv_step cfg hc s s' l e hs hst) ls s s' e h hr
 
-theorem inv_reachable (cfg : Cfg) (s : CState) (h : Reachable cfg s) : Inv cfg s := by
-  obtain ⟨t0, ls, e, hr⟩ := h
-  exact inv_runL cfg ls _ _ _ (inv_init cfg t0) hr
+/-- states reachable from a connection whose probe `Read` has just returned (probe at any time `tp`), by any
+sequence of labels -/
+def Reachable (cfg : Cfg) (s : CState) : Prop :=
+  ∃ tp ls e, runL cfg (CState.probed cfg tp) ls = some (s, e)
+
+theorem inv_reachable (cfg : Cfg) (hc : Coded cfg) (s : CState) (h : Reachable cfg s) : Inv cfg s := by
+  obtain ⟨tp, ls, e, hr⟩ := h
+  exact (inv_runL cfg hc ls _ _ _ ⟨inv_probed cfg tp, fun _ => rfl⟩ hr).1
+
+theorem reachable_step (cfg : Cfg) (s s' : CState) (l : Lbl) (e : List Eff) (h : Reachable cfg s)
+    (hs : step cfg s l = some (s', e)) : Reachable cfg s' := by
+  obtain ⟨tp, ls, e0, hr⟩ := h
+  refine ⟨tp, ls ++ [l], e0 ++ e, ?_⟩
+  have : ∀ (ls : List Lbl) (a b : CState) (ea : List Eff), runL cfg a ls = some (b, ea) →
+      runL cfg a (ls ++ [l]) = (match step cfg b l with | none => none | some r => some (r.1, ea ++ r.2)) := by
+    intro ls
+    induction ls with
+    | nil =>
+      intro a b ea h
+      simp [runL] at h
+      obtain ⟨rfl, rfl⟩ := h
+      simp only [List.nil_append, runL]
+      cases step cfg a l <;> simp
+    | cons x xs ih =>
+      intro a b ea h
+      simp only [runL] at h
+      split at h
+      · cases h
+      · rename_i r1 h1
+        split at h
+        · cases h
+        · rename_i r2 h2
+          simp only [Option.some.injEq, Prod.mk.injEq] at h
+          have := ih r1.1 r2.1 r2.2 (by simpa using h2)
+          simp only [List.cons_append, runL, h1, this]
+          rw [h.1]
+          cases step cfg b l with
+          | none => rfl
+          | some r => simp [← h.2, List.append_assoc]
+  rw [this ls _ _ _ hr, hs]
+
+theorem runL_reachable (cfg : Cfg) (ls : List Lbl) (s s' : CState) (e : List Eff) (h : Reachable cfg s)
+    (hr : runL cfg s ls = some (s', e)) : Reachable cfg s' :=
+  runL_induct cfg (Reachable cfg) (fun a b l e ha hs => reachable_step cfg a b l e ha hs) ls s s' e h hr
+
+/-! ### the write deadline, and the `exit` flag -/
+
+def Cfg.readOnly (cfg : Cfg) : Bool := cfg.ops.all DlOp.readOnly
+
+theorem apply_readOnly_wr (op : DlOp) (now : Nat) (d : Deadlines) (h : op.readOnly = true) : (op.apply now d).wr = d.wr := by
+  cases op with
+  | skip => rfl
+  | clear k => cases k <;> simp_all [DlOp.readOnly, DlOp.apply]
+  | arm k ms => cases k <;> simp_all [DlOp.readOnly, DlOp.apply]
+
+theorem readOnly_fields (cfg : Cfg) (h : cfg.readOnly = true) :
+    cfg.probeArm.readOnly = true ∧ cfg.afterProbe.readOnly = true ∧ cfg.loopTop.readOnly = true ∧
+    cfg.hdrRest.readOnly = true ∧ cfg.payload.readOnly = true ∧ cfg.afterPayload.readOnly = true := by
+  simpa [Cfg.readOnly, Cfg.ops] using h
+
+theorem stepByteT_wr (cfg : Cfg) (h : cfg.readOnly = true) (now : Nat) (r : RState) (b : UInt8) (dl : Deadlines) :
+    (stepByteT cfg now r b dl).2.1.wr = dl.wr := by
+  obtain ⟨_, _, h3, h4, h5, h6⟩ := readOnly_fields cfg h
+  cases r with
+  | waitHdr rg =>
+    have e1 : (if rg = [] then cfg.hdrRest.apply now dl else dl).wr = dl.wr := by
+      split
+      · exact apply_readOnly_wr _ _ _ h4
+      · rfl
+    simp only [stepByteT]
+    split
+    · exact e1
+    · split
+      · split
+        · split
+          · rw [apply_readOnly_wr _ _ _ h3]; exact e1
+          · rw [apply_readOnly_wr _ _ _ h3, apply_readOnly_wr _ _ _ h6, apply_readOnly_wr _ _ _ h5]; exact e1
+        · rw [apply_readOnly_wr _ _ _ h5]; exact e1
+      · exact e1
+  | waitPayload need rg =>
+    simp only [stepByteT]
+    split
+    · rw [apply_readOnly_wr _ _ _ h3, apply_readOnly_wr _ _ _ h6]
+    · rfl
+  | stopped w => rfl
+
+theorem wr_step (cfg : Cfg) (h : cfg.readOnly = true) (s s' : CState) (l : Lbl) (e : List Eff) (hw : s.dl.wr = none)
+    (hs : step cfg s l = some (s', e)) : s'.dl.wr = none := by
+  obtain ⟨_, h2, h3, _, _, _⟩ := readOnly_fields cfg h
+  cases l with
+  | enter now =>
+    obtain ⟨_, _, rfl, _⟩ := step_enter hs
+    simp only [enterLoop, applyOps]
+    rw [apply_readOnly_wr _ _ _ h3, apply_readOnly_wr _ _ _ h2]; exact hw
+  | arrive now b =>
+    obtain ⟨_, _, _, heq⟩ := step_arrive hs
+    have hs' : s' = (tstep cfg now s b).1 := congrArg Prod.fst heq
+    subst hs'
+    simp only [tstep]
+    split
+    · simp only; rw [stepByteT_wr cfg h]; exact hw
+    · exact hw
+  | expire now => obtain ⟨d, _, _, _, _, _, rfl, _⟩ := step_expire hs; exact hw
+  | peerClose now => obtain ⟨_, _, _, _, rfl, _⟩ := step_peerClose hs; exact hw
+  | cancel now => obtain ⟨_, _, _, rfl, _⟩ := step_cancel hs; exact hw
+  | teardown now => obtain ⟨_, _, _, _, rfl, _⟩ := step_teardown hs; exact hw
+
+def hasCancel : List Lbl → Bool
+  | [] => false
+  | .cancel _ :: _ => true
+  | _ :: r => hasCancel r
 
 end RawPanelVerif.Net
